@@ -10,7 +10,10 @@ def main():
     ap.add_argument('--tier', default=os.environ.get('VERIF_TIER', 'quick'), choices=['quick', 'thorough'])
     ap.add_argument('--replay')
     ap.add_argument('--jobs', type=int, default=None)
+    ap.add_argument('--update-baseline', action='store_true')
     a = ap.parse_args()
+    if a.update_baseline:
+        os.environ['VERIF_UPDATE_BASELINE'] = '1'
     os.chdir('/')   # never run with /repo/src/hpl as cwd (its ast/ and types.py shadow the stdlib)
     from pyvc import runner
     if a.replay:
